@@ -306,6 +306,9 @@ func parsePacketAdaptationField(i *astikit.BytesIterator) (a *PacketAdaptationFi
 
 	a.StuffingLength = a.Length - (i.Offset() - afStartOffset)
 
+	// An adaptation field of length 0 is the one byte stuffing form: flag it so that the packet can be written back as is
+	a.IsOneByteStuffing = a.Length == 0
+
 	return
 }
 
